@@ -12,6 +12,7 @@
 #include <etl/_type_traits/is_assignable.hpp>
 #include <etl/_type_traits/is_constructible.hpp>
 #include <etl/_type_traits/is_convertible.hpp>
+#include <etl/_type_traits/is_copy_assignable.hpp>
 #include <etl/_type_traits/is_copy_constructible.hpp>
 #include <etl/_type_traits/is_default_constructible.hpp>
 #include <etl/_type_traits/is_implicit_default_constructible.hpp>
@@ -97,7 +98,13 @@ struct pair {
     /// \brief Defaulted destructor.
     ~pair() noexcept = default;
 
-    constexpr auto operator=(pair const& p) -> pair& = default;
+    constexpr auto operator=(pair const& p) -> pair&
+        requires(is_copy_assignable_v<first_type> and is_copy_assignable_v<second_type>)
+    {
+        first  = p.first;
+        second = p.second;
+        return *this;
+    }
 
     template <typename U1, typename U2>
     constexpr auto operator=(pair<U1, U2> const& p)
